@@ -294,7 +294,7 @@ class ProgGen:
                     lo, hi, st = ['lit', rng.randint(1, 2)], ['lit', rng.randint(1, BOUND)], None
                 out.append(['do', v, lo, hi, st, self.stmts(d - 1, rng.randint(1, 3), free + [v], wfree)])
             elif d > 0 and r < o['do'] + o['if']:
-                out.append(self.cond(d, free, wfree))
+                out.append(self.select(d, free, wfree) if rng.random() < o.get('select', 0.0) else self.cond(d, free, wfree))
             elif d > 0 and r < o['do'] + o['if'] + o['while'] and len(wfree) < len(WHILEV):
                 w = WHILEV[len(wfree)]
                 out.append(['assign', w, ['lit', 0]])
@@ -307,6 +307,31 @@ class ProgGen:
             else:
                 out.append(self.simple(free))
         return out
+
+    def select(self, d, free, wfree):
+        """['select', selector, blocks, default_pos, default_body, name]: SELECT CASE over an integer selector with pairwise disjoint
+        selectors (single values, value lists, closed and half-open ranges), every body NON-empty (empty bodies are finding F1),
+        CASE DEFAULT absent or at a random position (first / middle / last), optionally a construct name"""
+        rng, g = self.rng, self.g
+        shapes = [[['v', ['lit', 1]]], [['v', ['lit', 2]], ['v', ['lit', 4]]], [['r', ['lit', 5], ['lit', 6]]], [['r', None, ['lit', 0]]],
+                  [['r', ['lit', 13], None]], [['v', ['lit', 3]], ['r', ['lit', 10], ['lit', 12]]], [['v', ['lit', 7]]]]
+        rng.shuffle(shapes)
+        nb = rng.randint(2, 4)
+        def body():
+            b = self.stmts(max(d - 1, 0), rng.randint(1, 2), free, wfree)
+            if all(x[0] == 'com' for x in b): b.append(self.simple(free, nocall=True))
+            return b
+        blocks = [[vals, body()] for vals in shapes[:nb]]
+        if rng.random() < 0.85:
+            dpos, dbody = rng.choice([0, 0, rng.randint(0, nb), nb]), body()
+        else:
+            dpos, dbody = None, None
+        sel = rng.choice([
+            ['fn', 'mod', [['fn', 'abs', [g.expr(1, free)]], ['lit', 10]]],
+            ['bin', '-', ['fn', 'mod', [['fn', 'abs', [['var', rng.choice(SCALARS + list(free))]]], ['lit', 16]]], ['lit', 1]],
+            ['var', rng.choice(SCALARS)]] + ([['bin', '+', ['bin', '*', ['var', free[-1]], ['lit', rng.randint(1, 3)]], ['lit', rng.randint(-2, 2) + 2]]] * 3 if free else []))
+        self.nsel = getattr(self, 'nsel', 0) + 1      # construct names are unique in a scoping unit
+        return ['select', sel, blocks, dpos, dbody, rng.choice([None, None, 'sel%d' % self.nsel])]
 
     def cond(self, d, free, wfree):
         rng, g = self.rng, self.g
@@ -360,8 +385,20 @@ def conv_stmts(ss):
         elif k == 'if': out.append(['if', conv(s[1]), conv_stmts(s[2]), conv_stmts(s[3]), bool(s[4])])
         elif k == 'ifi': out.append(['ifi', conv(s[1]), conv_stmts([s[2]])[0]])
         elif k == 'com': out.append(['com', s[1]])
+        elif k == 'select':
+            # canonical form (what the IR holds): ['select', E, [values per block], [bodies], default body]
+            out.append(['select', conv(s[1]), [[conv_caseval(v) for v in vals] for vals, _ in s[2]], [conv_stmts(b) for _, b in s[2]],
+                        conv_stmts(s[4]) if s[4] is not None else []])
         else: raise ValueError(s)
     return out
+
+def conv_caseval(v):
+    if v[0] == 'v': return ['v', conv(v[1])]
+    return ['range', None if v[1] is None else conv(v[1]), None if v[2] is None else conv(v[2])]
+
+def caseval_text(v, st):
+    if v[0] == 'v': return stext(v[1], st)
+    return '%s:%s' % ('' if v[1] is None else stext(v[1], st), '' if v[2] is None else stext(v[2], st))
 
 def src_lines(ss, st, depth=1):
     """Fortran text lines of source-AST statements"""
@@ -410,6 +447,17 @@ def src_lines(ss, st, depth=1):
         elif k == 'ifi':
             out += wrap('%s%s (%s) %s' % (pad, st.kw('if'), stext(s[1], st), simple_text(s[2])))
         elif k == 'com': out.append(pad + s[1])
+        elif k == 'select':
+            name = s[5]
+            out.append('%s%s%s %s (%s)' % (pad, (name + ': ') if name else '', st.kw('select'), st.kw('case'), stext(s[1], st)))
+            blocks = [('case', vals, b) for vals, b in s[2]]
+            if s[3] is not None: blocks.insert(s[3], ('default', None, s[4]))
+            for kind, vals, b in blocks:
+                tail = (' ' + name) if name and st.rng.random() < 0.5 else ''
+                if kind == 'default': out.append('%s%s %s%s' % (pad, st.kw('case'), st.kw('default'), tail))
+                else: out.append('%s%s (%s)%s' % (pad, st.kw('case'), ', '.join(caseval_text(v, st) for v in vals), tail))
+                out += src_lines(b, st, depth + 1)
+            out.append('%s%s %s%s' % (pad, st.kw('end'), st.kw('select'), (' ' + name) if name else ''))
         else: raise ValueError(s)
     return out
 
@@ -490,6 +538,13 @@ def from_loki2(nodes):
         elif isinstance(n, ir.CallStatement):
             if n.kwarguments or n.pragma: raise Unsupported('call with kwargs/pragma')
             out.append(['call', str(n.name).lower(), [_struct(a) for a in n.arguments]])
+        elif isinstance(n, ir.MultiConditional):
+            def cv(v):
+                if isinstance(v, sym.RangeIndex):
+                    return ['range', None if v.start is None else _struct(v.start), None if v.stop is None else _struct(v.stop)]
+                return ['v', _struct(v)]
+            out.append(['select', _struct(n.expr), [[cv(v) for v in vals] for vals in n.values], [from_loki2(b) for b in n.bodies],
+                        from_loki2(n.else_body or ())])
         else:
             raise Unsupported(type(n).__name__)
     return out
@@ -505,6 +560,19 @@ def to_minif(ss):
         elif k == 'if': out.append(['if', s[1], to_minif(s[2]), to_minif(s[3])])
         elif k == 'ifi': out.append(['if', s[1], [s[2]], []])
         elif k == 'com': out.append(['skip', s[1]])
+        elif k == 'select':
+            # Fortran semantics of SELECT CASE as an IF chain; a selector list without a body (or a body without selectors) cannot be paired
+            if len(s[2]) != len(s[3]): raise MF.Stuck('SELECT CASE with %d selectors and %d bodies' % (len(s[2]), len(s[3])))
+            E = s[1]
+            def test(v):
+                if v[0] == 'v': return ['cmp', '==', E, v[1]]
+                cs = ([['cmp', '<=', v[1], E]] if v[1] is not None else []) + ([['cmp', '<=', E, v[2]]] if v[2] is not None else [])
+                return cs[0] if len(cs) == 1 else (['and'] + cs if cs else ['log', True])
+            chain = to_minif(s[4])
+            for vals, b in reversed(list(zip(s[2], s[3]))):
+                ts = [test(v) for v in vals]
+                chain = [['if', ts[0] if len(ts) == 1 else ['or'] + ts, to_minif(b), chain]]
+            out += chain
         else: raise ValueError(s)
     return out
 
@@ -730,7 +798,11 @@ def count_stmts(ss):
         if s[0] == 'do': n += count_stmts(s[5])
         elif s[0] == 'while': n += count_stmts(s[2])
         elif s[0] == 'if': n += count_stmts(s[2]) + count_stmts(s[3])
+        elif s[0] == 'select': n += sum(count_stmts(b) for b in s[3]) + count_stmts(s[4])
     return n
+
+def has_select(ss):
+    return '"select"' in json.dumps(ss)
 
 # =====================================================================================================
 # 5. running
@@ -825,7 +897,7 @@ end module c01_decls
 
     @t
     def t_select(r):
-        lo, hi = r.randint(0, 2), r.randint(5, 7)
+        lo, hi = r.randint(0, 1), r.randint(5, 7)       # (:lo) must not overlap (2, 4)
         k1, k2, k3 = r.randint(1, 9), r.randint(1, 9), r.randint(1, 9)
         return ("""module c01_select
   implicit none
@@ -862,6 +934,42 @@ contains
   end subroutine work
 end module c01_select
 """ % dict(lo=lo, hi=hi, k1=k1, k2=k2, k3=k3), _driver('c01_select'))
+
+    @t
+    def t_select2(r):
+        """SELECT CASE with the blocks in random order: CASE DEFAULT first / in the middle / last, value lists, closed and half-open
+        ranges, construct names, a character selector; every body is non-empty; the loop exercises every branch"""
+        cands = [(':0', 'x = x - %d' % r.randint(1, 9)), ('1', 'x = x + %d' % r.randint(1, 9)), ('2, 4', 'x = x + n * %d' % r.randint(2, 5)),
+                 ('3', 'y = y + 1\n        x = x - y'), ('5:6', 'x = x * 2\n        y = y + x'), ('8:', 'x = %d - x' % r.randint(1, 9)), ('7', 'y = -y')]
+        r.shuffle(cands)
+        blocks = [('case (%s)' % v, b) for v, b in cands[:r.randint(3, 5)]]
+        blocks.insert(r.choice([0, r.randint(1, len(blocks) - 1), len(blocks)]), ('case default', 'x = x + 100\n        y = y - 1'))
+        name = r.choice(['', 'pick'])
+        sel = '\n'.join('      %s%s\n        %s' % (h, (' ' + name) if name and r.random() < 0.5 else '', b) for h, b in blocks)
+        cblocks = [("case ('a')", "z = z + 1"), ("case ('b', 'c')", "z = z + 10"), ("case ('x':'z')", "z = z + 100"), ("case default", "z = z + 1000")]
+        r.shuffle(cblocks)
+        csel = '\n'.join('      %s\n        %s' % (h, b) for h, b in cblocks)
+        return ("""module c01_select2
+  implicit none
+contains
+  subroutine work()
+    integer :: n, x, y, z
+    character(len=1) :: ch
+    x = 0; y = 0; z = 0
+    do n = -2, 10
+      %(hd)sselect case (n)
+%(sel)s
+      end select%(tl)s
+      ch = achar(mod(n + 2, 5) + 97)
+      if (n > 7) ch = 'y'
+      select case (ch)
+%(csel)s
+      end select
+      print *, n, x, y, z
+    end do
+  end subroutine work
+end module c01_select2
+""" % dict(hd=(name + ': ') if name else '', tl=(' ' + name) if name else '', sel=sel, csel=csel), _driver('c01_select2'))
 
     @t
     def t_where(r):
@@ -1187,10 +1295,14 @@ RICH = rich_templates()
 
 def gf_pair(original, regenerated, main):
     """compile and run both; returns None if identical stdout, else a description"""
-    ok1, out1 = MF.gfortran_run([original], main, flags=('-O0', '-ffree-line-length-none', '-w'))
+    ok1, out1 = MF.gfortran_run([original], main, timeout=240, flags=('-O0', '-ffree-line-length-none', '-w'))
+    if not ok1 and out1 == 'timeout':
+        ok1, out1 = MF.gfortran_run([original], main, timeout=600, flags=('-O0', '-ffree-line-length-none', '-w'))
     if not ok1:
         return ('skip', 'original program does not build/run: ' + out1[-300:])
-    ok2, out2 = MF.gfortran_run([regenerated], main, flags=('-O0', '-ffree-line-length-none', '-w'))
+    ok2, out2 = MF.gfortran_run([regenerated], main, timeout=240, flags=('-O0', '-ffree-line-length-none', '-w'))
+    if not ok2 and out2 == 'timeout':
+        ok2, out2 = MF.gfortran_run([regenerated], main, timeout=600, flags=('-O0', '-ffree-line-length-none', '-w'))
     if not ok2:
         return ('fail', 'regenerated program fails (%s) while the original prints %r' % (' '.join(out2.split())[:300], out1[:120]))
     if out1 != out2:
@@ -1221,6 +1333,9 @@ class C01(Property):
             'observed); gfortran original vs regenerated on a sample. rich stream (oracle only): template programs with kinds, parameters, initialisers, '
             'SELECT CASE, WHERE, ASSOCIATE, internal procedures, module variables, derived types, generic interfaces, optional/keyword arguments, PRINT/WRITE/'
             'FORMAT, string literals with quotes, labels, GOTO, named loops, continuation lines, mixed case: gfortran output of original vs regenerated module. '
+            'minif-select stream (oracle only): generated programs with SELECT CASE constructs (disjoint selectors: values, value lists, closed/half-open ranges; CASE DEFAULT '
+            'first / in the middle / last / absent; construct names; nesting; all bodies non-empty): reference interpreter on the generator\'s ground truth (SELECT CASE as an IF '
+            'chain) vs first parse vs second parse, gfortran on a sample. A template or program whose ORIGINAL does not build is reported as an oracle failure, never skipped. '
             'A case is non-trivial when the program has >= 4 statements and changes the store; distinct = distinct source texts.')
     modelled_not_verified = [
         'the expression level is C06: the composition theorem re-reads each slot through the derivation relation G (existential: G is not proved unambiguous); the executable reference reader ref_parse is tied, not verified',
@@ -1231,9 +1346,9 @@ class C01(Property):
     ]
 
     # ---------------------------------------------------------------------------------------------
-    def _minif_case(self, rng, tier, depth=None, n=None, plain=False, canon=False):
+    def _minif_case(self, rng, tier, depth=None, n=None, plain=False, canon=False, select=False):
         for _ in range(30):
-            pg = ProgGen(rng, {'canon': canon})
+            pg = ProgGen(rng, {'canon': canon, 'select': 0.6, 'if': 0.35} if select else {'canon': canon})
             body = pg.stmts(depth if depth is not None else rng.choice([1, 2, 2, 3]), n if n is not None else rng.randint(2, 5), [], [])
             callees = sorted(pg.used_calls)
             prog = {'body': body, 'callees': callees, 'callee_bodies': {c: callee_src(c, rng) for c in callees}}
@@ -1245,8 +1360,9 @@ class C01(Property):
                 if not isinstance(run_ref(exp_body, exp_procs, st), str): stores.append(st)
                 if len(stores) >= 3: break
             if not stores: continue
+            if select and not has_select(exp_body): continue
             st = Style(random.Random(rng.random()), plain=plain)
-            case = {'kind': 'minif', 'src': program_source(prog, st), 'expected': exp_body,
+            case = {'kind': 'minif-select' if select else 'minif', 'src': program_source(prog, st), 'expected': exp_body,
                     'expected_callees': {c: conv_stmts(b) for c, b in prog['callee_bodies'].items()}, 'stores': stores}
             if rng.random() < (0.04 if tier == 'quick' else 0.15): case['gfortran'] = True
             return case
@@ -1265,6 +1381,11 @@ class C01(Property):
             yield self._rich_case(rng, names[i % len(names)])
         for _ in range(n):
             yield self._minif_case(rng, tier)
+        # programs with SELECT CASE constructs (default block first / in the middle / last / absent, value lists, ranges, names):
+        # reference-interpreter oracle (no model of SELECT CASE)
+        ns = int(os.environ.get('LOKI_VERIF_C01_NS', '0')) or (60 if tier == 'quick' else 300)
+        for _ in range(ns):
+            yield self._minif_case(rng, tier, select=True)
 
     # ---------------------------------------------------------------------------------------------
     def run_impl(self, case):
@@ -1280,6 +1401,8 @@ class C01(Property):
         regen = sf1.to_fortran()
         sf2, ir2 = parse_all(regen)
         main2 = sf2['c01_main']
+        if case['kind'] == 'minif-select':
+            return {'ir1': ir1, 'ir2': ir2, 'regen': regen}
         # the real text cut into lines; slots parsed by the real expression frontend in the scope of the re-read routine
         cls = [classify_line(l) for l in logical_lines(text1)]
         it = slots_of(ir2['c01_main'])
@@ -1299,6 +1422,7 @@ class C01(Property):
     def model_term(self, case, out):
         if case['kind'] != 'minif' or '__exception__' in out: return None
         p1 = out['ir1']['c01_main']; p2 = out['ir2']['c01_main']
+        if has_select(p1) or has_select(p2): return None
         parts = []
         P1 = coq(fstmts_model(p1))
         same = (p1 == p2)
@@ -1332,7 +1456,10 @@ class C01(Property):
             return 'frontend/backend raised %s: %s' % (out['__exception__'], out.get('msg'))
         if case['kind'] == 'rich':
             r = gf_pair(case['module'], out['regen'], case['main'])
-            if r is None or r[0] == 'skip': return None
+            if r is None: return None
+            if r[0] == 'skip':
+                # never silent: a template whose ORIGINAL does not build checks nothing (this hid a seeded change once)
+                return 'harness defect, nothing was checked: ' + r[1]
             return 'gfortran: ' + r[1]
         exp_procs = procs_of(case['expected_callees'])
         for which in ('ir1', 'ir2'):
@@ -1355,6 +1482,7 @@ class C01(Property):
             main = MF.main_program(unit_json(), st, spec)
             r = gf_pair(case['src'], out['regen'], main)
             if r is not None and r[0] == 'fail': return 'gfortran: ' + r[1]
+            if r is not None and r[0] == 'skip': return 'harness defect, nothing was checked: ' + r[1]
             if r is None:
                 ok, txt = MF.gfortran_run([out['regen']], main, flags=('-O0', '-ffree-line-length-none', '-w'))
                 ref = run_ref(case['expected'], exp_procs, case['stores'][0])
